@@ -128,6 +128,11 @@ func (vc *VC) preservedHeaps(spec *FuncSpec, env *Env) map[string]bool {
 				continue
 			}
 			out[m.Heap] = true
+			if m.Sort != "" {
+				// so that the storage can be pinned across the havoc even when
+				// nothing has read it yet in this function
+				vc.recordSort(m.Heap, m.Sort)
+			}
 		}
 	}
 	return out
@@ -171,6 +176,19 @@ func (vc *VC) execCall(fr *Frame, c *ssa.CallCommon, site ssa.Instruction, pos t
 			recv := vc.fieldCallRecv(fr, c.Value)
 			if recv != nil {
 				return vc.callFunction(fr, fn, nil, append([]*Val{recv}, args...), fn.Signature, pos)
+			}
+		}
+	}
+	// a package-level function variable of a dependency (var Id = id) with an
+	// assumed contract under the variable's name
+	if u, ok := c.Value.(*ssa.UnOp); ok && u.Op == token.MUL {
+		if g, ok := u.X.(*ssa.Global); ok && g.Pkg != nil {
+			if sp, ok := vc.p.db.Funcs[g.Pkg.Pkg.Path()+"."+g.Name()]; ok && sp.Assumed {
+				vc.used.Assumes["the function variable "+calleeShort(sp.Key)+" holds a function satisfying its assumed contract"] = true
+				if sp.Pure && len(sp.Ensures) == 0 && len(sp.Requires) == 0 {
+					vc.used.Pure[calleeShort(sp.Key)] = true
+					return vc.freshResult(sig, g.Name())
+				}
 			}
 		}
 	}
